@@ -160,6 +160,15 @@ theorem wp_expandAll (cx : PCtx) (action : Bool) (strs : List Bytes) {Q : List B
   | none => exact hE _ hs.2
   | some r => exact hQ r.1 r.2 hs
 
+theorem wp_expandMac (action : Bool) (str : Bytes) {Q : Bytes → ParseSt → Prop} {n B : Nat}
+    (hs : Inv n B s) (hE : ∀ s', phi s' ≤ B → E s')
+    (hQ : ∀ v ms, Inv n B { s with macros := ms } → Q v { s with macros := ms }) :
+    wp (expandMac action str) Q E F s := by
+  unfold wp expandMac
+  cases expandMacros action (str.length + 1) str s.macros [] with
+  | none => exact hE _ hs.2
+  | some r => exact hQ r.1 r.2 hs
+
 /-- The action flags `CTree.countActions` uses are those `expr_alloc` sets (regenerated table). -/
 theorem action_flags_table :
     (Gen.exprTable.filter (fun i => i.action)).map (fun i => i.name) =
